@@ -6,7 +6,11 @@ continuation lines).  It builds real ``Deb822`` objects through ``__setitem__``,
 lets the library ``dump()`` them, joins the dumps with blank lines and feeds the
 result back through EVERY input-form class
 
-    {str, bytes, list of lines with '\\n', list of lines without, io.StringIO, io.BytesIO}
+    {str, bytes, list of lines with '\\n', list of lines without, io.StringIO, io.BytesIO,
+     REAL text file objects that carry a declared encoding - io.TextIOWrapper over the encoded bytes and
+     files on disk opened in text mode, encoding utf-8 / iso-8859-1 / latin-1 / cp1252 / utf-16 (always
+     the encoding the bytes were written in, so the decoded text is identical to the str form) -
+     and a real file on disk opened 'rb'}
   x {plain, PGP clearsign armour (single paragraph only; also via Dsc / Changes)}
   x {no comments, comment lines interleaved at random line boundaries}
   x {no leading blank lines, 1..3 leading blank lines}
@@ -27,12 +31,19 @@ from .. import core
 PROP = 'C02'
 LEVEL = 'exploration'
 RULE = ('Model documents of 1..4 paragraphs x 1..6 fields: names over policy-valid printable ASCII (no colon, not '
-        'starting with # or -, distinct case-insensitively); first lines over a hostile alphabet (colon, #, tab, dash, '
-        'non-ASCII, leading/trailing blanks, empty, armour-marker look-alikes); continuation lines starting with space '
-        'or tab with non-blank content (Key: value shaped, #-leading, armour-marker look-alikes, trailing tabs).  Plus a '
-        'small enumerated grid hostile-first-line x hostile-continuation-set.  Every document is dumped by the library and '
-        're-read through all input-form classes (6 containers x plain/armour x comments x leading blanks x API).  A '
-        'document is non-trivial when it has >= 1 multi-line value, or a value starting with ":" or "#", or >= 2 paragraphs; '
+        'starting with # or -, distinct case-insensitively; names whose FIRST character is a digit or a punctuation '
+        'character occur in about every second document and are additionally enumerated: every admissible first '
+        'character x {first field, after a single-line field, after a multi-line value}); first lines over a hostile '
+        'alphabet (colon, #, tab, dash, non-ASCII, leading/trailing blanks, empty, armour-marker look-alikes); continuation '
+        'lines starting with space or tab with non-blank content (Key: value shaped, #-leading, armour-marker look-alikes, '
+        'trailing tabs).  Each random document gets a character profile (any Unicode / latin-1 only / cp1252 only / pure '
+        'ASCII) so that non-ASCII documents that ARE encodable in the 8-bit encodings, and pure-ASCII ones, both occur '
+        'regularly.  Plus a small enumerated grid hostile-first-line x hostile-continuation-set.  Every document is dumped by '
+        'the library and re-read through all input-form classes: 6 in-memory containers + real text file objects with a '
+        'declared encoding (io.TextIOWrapper and files on disk opened in text mode; utf-8, iso-8859-1/latin-1, cp1252, '
+        'utf-16 - every cell of the form grid sees each encoding, through one of the two kinds, alternating) + a real '
+        'binary file, x plain/armour x comments x leading blanks x API (Deb822, iter_paragraphs, Dsc, Changes).  A document '
+        'is non-trivial when it has >= 1 multi-line value, or a value starting with ":" or "#", or >= 2 paragraphs; '
         'distinct by the content of the model document.')
 ASSUMPTIONS = [
     'domain: field names are printable ASCII 33..126 without colon, not starting with "#" or "-", distinct case-insensitively '
@@ -42,8 +53,22 @@ ASSUMPTIONS = [
     'of a first line; continuation lines start with space or tab and contain at least one non-blank character',
     'clearsign armour is applied to single paragraphs only; armour marker lines may carry trailing blanks/tabs and a CR '
     '(what _gpgre tolerates); no dash-escaping (names never start with "-")',
-    'python-apt is not used (use_apt_pkg stays False); encoding is UTF-8 throughout; strict= is left at its default',
+    'python-apt is not used (use_apt_pkg stays False); the encoding= argument of the library is left at its default '
+    '(UTF-8) throughout; bytes-typed forms are always UTF-8; strict= is left at its default',
     'Dsc/Changes are exercised on clearsigned text only',
+    'text file objects with a declared encoding are always opened with the encoding their bytes were written in (the '
+    'decoded text equals the str form; a file opened with the WRONG encoding is outside the statement); a form is only '
+    'run when the whole input text is encodable in that encoding (otherwise counted as skip:unencodable:<enc>); '
+    'TextIOWrapper newline= is drawn from {None, "", "\\n"} once per case, disk files use the default (universal '
+    'newlines: only the CR that marker lines may carry before their LF is affected)',
+    'GUARD (under-demand): Dsc/Changes given a text file object whose declared encoding is not UTF-8 are judged only '
+    'when the whole input text is pure ASCII and the encoding is ASCII-compatible (iso-8859-1/latin-1/cp1252).  '
+    'Otherwise (non-ASCII text with an 8-bit encoding; any text with utf-16) the live tree itself disagrees: '
+    '_gpg_multivalued.__init__ re-encodes every str line with the FILE\'s declared encoding and hands those bytes to the '
+    'Deb822 parser, which decodes them with its own encoding= (UTF-8 default) - mojibake via charset detection for '
+    'latin-1/cp1252, ValueError or an empty result for utf-16.  These forms are executed on a sample of the cases and '
+    'only COUNTED (unjudged:gpg-api-on-non-utf8-text-file:agree|differ|raise); Deb822(f) and iter_paragraphs(f) are '
+    'judged for every encoding',
 ]
 ANCHORS = ['debian.deb822:Deb822._internal_parser',
            'debian.deb822:Deb822._skip_useless_lines',
